@@ -44,7 +44,7 @@ def substream(seed, label):
 
 
 class Task:
-    __slots__ = ('id', 'name', 'sem', 'state', 'pred', 'deadline', 'timed_out', 'thread', 'what')
+    __slots__ = ('id', 'name', 'sem', 'state', 'pred', 'deadline', 'timed_out', 'thread', 'what', 'exact')
 
     def __init__(self, id, name):
         self.id, self.name = id, name
@@ -55,6 +55,7 @@ class Task:
         self.timed_out = False
         self.thread = None
         self.what = None
+        self.exact = False
 
 
 class Sched:
@@ -197,11 +198,17 @@ class Sched:
                     # busy tasks consume time too: a pending timer cannot be starved forever
                     t = self._fire_timer()
                     self.log('fire-starved', t.name, round(self.now, 9))
+                    if t.exact:
+                        nxt = t
+                        break
                     continue
                 if self.timer_p and self.rng.random() < self.timer_p and self._earliest() is not None:
                     t = self._fire_timer()
                     self.early_timers += 1
                     self.log('fire', t.name, round(self.now, 9))
+                    if t.exact:
+                        nxt = t
+                        break
                     continue
                 nxt = self._pick(r, cur)
                 break
@@ -212,6 +219,10 @@ class Sched:
                     return
                 raise SimAbort
             self.log('fire', t.name, round(self.now, 9))
+            if t.exact:
+                # a sleep that returns exactly on time: the sleeper runs at its deadline
+                nxt = t
+                break
         self.log('run', nxt.name)
         if nxt is cur:
             return
@@ -286,6 +297,15 @@ class Sched:
 
     def sleep(self, d):
         self.block_until(_never, timeout=max(d, 0), what='sleep')
+
+    def sleep_exact(self, d):
+        """Sleep that is observed to end exactly at its deadline (no scheduling delay)."""
+        cur = self.cur()
+        cur.exact = True
+        try:
+            self.block_until(_never, timeout=max(d, 0), what='sleep')
+        finally:
+            cur.exact = False
 
     def shutdown(self):
         self.aborting = True
